@@ -2,5 +2,5 @@ P('C08', shards=16,
   technique='property-based testing of pinned-worker scenario programs inside a testing/synctest bubble; oracle: concurrency gauge bound and a quiescence invariant (nothing accepted waits while a worker is idle)',
   text='Generated programs with laneSize >= 2 pin 1..laneSize-1 workers with gated tasks and push most work to the pinned lanes (often everything to one lane). A gauge inside Start() must never exceed laneSize; at every quiescent point with a live context '
        'no accepted task may wait while fewer than laneSize workers are busy, so head-of-line blocking behind a pinned worker shows up as a violated invariant, without any wall-clock timeout. Exploration, not proof.',
-  note='TestNeverCancelledContext (real clock): lanes on context.Background(), TODO, WithoutCancel and an own context with a nil Done channel share work like any other. Pushed values include the nil Task. Latency is not measured, only the outcome at quiescence; the Go scheduler orders runnable goroutines inside the bubble.',
+  note='One program in six has a second TaskLane on the same context (its idle workers must not run the first lane\'s tasks). TestNeverCancelledContext (real clock): lanes on context.Background(), TODO, WithoutCancel and an own context with a nil Done channel share work like any other. Pushed values include the nil Task. Latency is not measured, only the outcome at quiescence; the Go scheduler orders runnable goroutines inside the bubble.',
   design='3/C08')
